@@ -206,52 +206,94 @@ structure Cfg where
   skip : Bool    -- SkipDefaultTransaction
 deriving DecidableEq, Repr
 
+/-- `DB.clone`: 0 = a chained instance (result of Where/Model/…; operations run ON it), 1 = operations start from a NEW
+    Statement (gorm.go:408), 2 = operations start from a CLONE of the handle's Statement (gorm.go:420) -/
+inductive Clone where | c0 | c1 | c2
+deriving DecidableEq, Repr
+
 /-- a `*gorm.DB` handle: the dynamic type of `Statement.ConnPool`, its sticky `Error`, the per-handle copy of the Config
-    flags a `Session` can switch on (gorm.go:227 `txConfig = *db.Config`), and the chained conditions its Statement carries
-    (clone = 0 / 2 handles; a clone = 1 handle starts every operation from a new Statement: `cond = []`) -/
+    flags a `Session` can switch on (gorm.go:227 `txConfig = *db.Config`), the chained conditions its Statement holds and
+    its clone mode -/
 structure Handle where
   pool : Pool
   err : Err := []
   skip : Bool := false      -- Session{SkipDefaultTransaction: true} was applied on the way to this handle
   dis : Bool := false       -- Session{DisableNestedTransaction: true} was applied on the way to this handle
-  cond : List Nat := []     -- chained `Where("id <> ?", k)` conditions
+  cond : List Nat := []     -- `Where("id <> ?", k)` conditions held by the handle's Statement
+  clone : Clone := .c1
 deriving DecidableEq, Repr
+
+/-- the conditions an operation issued on the handle runs with: a clone = 1 handle starts from a new Statement -/
+def Handle.effCond (h : Handle) : List Nat := if h.clone = .c1 then [] else h.cond
 
 def Cfg.root (c : Cfg) : Handle := { pool := if c.prep then .prepDB else .sqlDB }
 
 /-- ways of deriving a handle from a handle (user code inside or outside a transaction) -/
 inductive Derive where
   | keep         -- Session{} / SkipHooks / Context / Logger / NowFunc / QueryFields / CreateBatchSize / AllowGlobalUpdate /
-                 -- FullSaveAssociations / DryRun:false / Initialized, WithContext, Debug, chained Model/Table/Set/Select
+                 -- FullSaveAssociations / PropagateUnscoped / DryRun:false, WithContext
   | prep         -- Session{PrepareStmt: true}
   | newDB        -- Session{NewDB: true}
   | skipTx       -- Session{SkipDefaultTransaction: true}
   | disNested    -- Session{DisableNestedTransaction: true}
-  | whereNe (k : Nat)   -- chained `.Where("id <> ?", k)` (clone = 0 handle)
+  | chain        -- a chain method without conditions: Model / Table / Select / Set (getInstance; the result has clone = 0)
+  | whereNe (k : Nat)   -- chained `.Where("id <> ?", k)`
+  | initialized  -- Session{Initialized: true}: Session, then getInstance
+  | debug        -- Debug(): getInstance, then Session{Logger}
 deriving DecidableEq, Repr
+
+/-- gorm.go:405 `getInstance` on (conditions, clone): clone = 1 → new Statement; clone = 2 → cloned; clone = 0 → the handle itself -/
+def stChain (s : List Nat × Clone) : List Nat × Clone := (if s.2 = .c1 then [] else s.1, .c0)
+
+/-- effect of a derivation on (Statement conditions, clone). `Session` keeps the Statement POINTER (gorm.go:230) and sets
+    clone = 2 unless NewDB (:299); NewDB keeps clone = 1 — the old conditions stay in the Statement and are only ignored
+    by getInstance, so a later plain Session on that handle brings them back. -/
+def deriveSt : Derive → List Nat × Clone → List Nat × Clone
+  | .keep, s | .prep, s | .skipTx, s | .disNested, s => (s.1, .c2)
+  | .newDB, s => (s.1, .c1)
+  | .chain, s => stChain s
+  | .whereNe k, s => (k :: (stChain s).1, .c0)
+  | .initialized, s => (s.1, .c0)
+  | .debug, s => ((stChain s).1, .c2)
+
+/-- finisher_api.go:667 `db.getInstance().Session(&Session{Context: …, NewDB: db.clone == 1})` -/
+def beginSt (s : List Nat × Clone) : List Nat × Clone := if s.2 = .c1 then ([], .c1) else (s.1, .c2)
+
+/-- finisher_api.go:639 `db.Session(&Session{NewDB: db.clone == 1})` -/
+def nestSt (s : List Nat × Clone) : List Nat × Clone := if s.2 = .c1 then (s.1, .c1) else (s.1, .c2)
 
 /-- gorm.go:226 `Session` (and :405 `getInstance` for chain methods): `Error` and `Statement.ConnPool` are COPIED, so the new
     handle stays on the transaction's connection. Session{PrepareStmt} (:262-283): `case Tx:` wraps the transaction
     (`*sql.Tx`, a `*PreparedStmtTX` — double wrapping — or a custom pool's Tx) in a `*PreparedStmtTX`; `default:` a
-    `*PreparedStmtDB` over the pool. `NewDB` leaves clone = 1: operations start from a new Statement (conditions dropped,
-    ConnPool kept — gorm.go:411). -/
-def derive : Derive → Handle → Handle
-  | .keep, h => h
-  | .prep, h => { h with pool := match h.pool with | .sqlDB => .prepDB | .sqlTx => .prepTx | p => p }
-  | .newDB, h => { h with cond := [] }
-  | .skipTx, h => { h with skip := true }
-  | .disNested, h => { h with dis := true }
-  | .whereNe k, h => { h with cond := k :: h.cond }
+    `*PreparedStmtDB` over the pool. -/
+def derive (k : Derive) (h : Handle) : Handle :=
+  { h with
+    pool := match k, h.pool with | .prep, .sqlDB => .prepDB | .prep, .sqlTx => .prepTx | _, p => p
+    skip := h.skip || k = .skipTx
+    dis := h.dis || k = .disNested
+    cond := (deriveSt k (h.cond, h.clone)).1
+    clone := (deriveSt k (h.cond, h.clone)).2 }
+
+/-- the handle a nested Transaction passes to its function -/
+def nestH (h : Handle) : Handle :=
+  { h with cond := (nestSt (h.cond, h.clone)).1, clone := (nestSt (h.cond, h.clone)).2 }
+
+/-- `AddError` of a SavePoint/RollbackTo result: on a clone = 0 handle the dialector's `tx.Exec` runs ON the handle
+    (getInstance returns it), so the error is already in `db.Error` when `db.AddError(…)` adds it again -/
+def spErr (h : Handle) (e : Err) : Err := addError (if h.clone = .c0 then e else h.err) e
 
 def markStale (h : Handle) (db : DB) : DB := if h.err = [] then db else { db with stale := true }
+
+def beginH (h : Handle) (p : Pool) (e : Err) : Handle :=
+  { h with pool := p, err := e, cond := (beginSt (h.cond, h.clone)).1, clone := (beginSt (h.cond, h.clone)).2 }
 
 /-- finisher_api.go:664 `Begin`: new handle (Session copies Error and ConnPool); type switch TxBeginner (`*sql.DB`) /
     ConnPoolBeginner (`*PreparedStmtDB`, prepare_stmt.go:139 → `&PreparedStmtTX{Tx: tx}`) / default ErrInvalidTransaction -/
 def gormBegin (o : Oracle) (h : Handle) (db : DB) : DB × Handle :=
   match h.pool with
-  | .sqlDB => let (db, e) := drvBegin o db; (db, { h with pool := .sqlTx, err := addError h.err e })
-  | .prepDB => let (db, e) := drvBegin o db; (db, { h with pool := .prepTx, err := addError h.err e })
-  | _ => (db, { h with err := addError h.err [.invalidTx] })
+  | .sqlDB => let (db, e) := drvBegin o db; (db, beginH h .sqlTx (addError h.err e))
+  | .prepDB => let (db, e) := drvBegin o db; (db, beginH h .prepTx (addError h.err e))
+  | p => (db, beginH h p (addError h.err [.invalidTx]))
 
 /-- finisher_api.go:692 `Commit` (+ prepare_stmt.go:213 `PreparedStmtTX.Commit` forwarding to `tx.Tx.Commit()`) -/
 def gormCommit (o : Oracle) (h : Handle) (db : DB) : DB × Handle :=
@@ -274,12 +316,12 @@ def execRawTx (h : Handle) (call : DB → DB × Err) (db : DB) : DB × Err :=
 /-- finisher_api.go:714 `SavePoint`: (unwrap *PreparedStmtTX to its Tx,) run the statement, `db.AddError` ON THE HANDLE ITSELF -/
 def gormSavePoint (o : Oracle) (h : Handle) (name : SpName) (db : DB) : DB × Handle :=
   let (db, e) := execRawTx h (drvSavepoint o name) db
-  (db, { h with err := addError h.err e })
+  (db, { h with err := spErr h e })
 
 /-- finisher_api.go:738 `RollbackTo` -/
 def gormRollbackTo (o : Oracle) (h : Handle) (name : SpName) (db : DB) : DB × Handle :=
   let (db, e) := execRawTx h (drvRollbackTo o name) db
-  (db, { h with err := addError h.err e })
+  (db, { h with err := spErr h e })
 
 /-- `DELETE … WHERE id <> k AND id = k` touches nothing -/
 def effWrite (cond : List Nat) : Write → Write
@@ -290,7 +332,7 @@ def effWrite (cond : List Nat) : Write → Write
     callbacks/transaction.go BeginTransaction (skipped when SkipDefaultTransaction or Error ≠ nil; ErrInvalidTransaction of a
     tx pool is swallowed), the statement (`if db.Error != nil return`), CommitOrRollbackTransaction. The handle is not modified. -/
 def gormWrite (c : Cfg) (o : Oracle) (h : Handle) (w0 : Write) (db : DB) : DB × Err :=
-  let w := effWrite h.cond w0
+  let w := effWrite h.effCond w0
   if h.err ≠ [] then (db, h.err) else
   if h.pool.isCommitter then drvExecTx o w db
   else if c.skip || h.skip then drvExecPool o w db
@@ -308,7 +350,7 @@ def gormWrite (c : Cfg) (o : Oracle) (h : Handle) (w0 : Write) (db : DB) : DB ×
 /-- `h.Find(&items)`: query pipeline has no transaction callbacks; callbacks/query.go `if db.Error == nil` -/
 def gormQuery (o : Oracle) (h : Handle) (db : DB) : DB × Err :=
   if h.err ≠ [] then (db, h.err) else
-  if h.pool.isCommitter then drvQueryTx o h.cond db else drvQueryPool o h.cond db
+  if h.pool.isCommitter then drvQueryTx o h.effCond db else drvQueryPool o h.effCond db
 
 /-! ### Layer 3: programs -/
 
@@ -414,10 +456,9 @@ def runChild (c : Cfg) (o : Oracle) (h : Handle) : Prog → DB → DB × Handle 
         if h1.err ≠ [] then (db, h1, .err h1.err)                -- :629 fc is not run
         else
           -- :639 `fc(db.Session(&Session{NewDB: db.clone == 1}))`: a NEW handle with the same pool and a copy of Error
-          -- (pool, Error, Config flags copied; conditions kept for clone ≠ 1 and absent for clone = 1: the same `cond` either way)
-          finishNested o h1 name out tag (runBody c o h1 body db)
+          finishNested o h1 name out tag (runBody c o (nestH h1) body db)
       else
-        finishDis h out tag (runBody c o h body db)
+        finishDis h out tag (runBody c o (nestH h) body db)
     else
       let (db, tx) := gormBegin o h db                           -- :641
       if tx.err ≠ [] then (db, h, .err tx.err)                   -- :642
@@ -474,14 +515,22 @@ structure Env where
   inTx : Bool
   skip : Bool
   dis : Bool
-  cond : List Nat := []
+  cond : List Nat := []     -- conditions held by the Statement of the handle
+  clone : Clone := .c1
 
-def specDerive : Derive → Env → Env
-  | .newDB, e => { e with cond := [] }
-  | .skipTx, e => { e with skip := true }
-  | .disNested, e => { e with dis := true }
-  | .whereNe k, e => { e with cond := k :: e.cond }
-  | _, e => e
+def Env.effCond (e : Env) : List Nat := if e.clone = .c1 then [] else e.cond
+
+def specDerive (k : Derive) (e : Env) : Env :=
+  { e with skip := e.skip || k = .skipTx, dis := e.dis || k = .disNested,
+           cond := (deriveSt k (e.cond, e.clone)).1, clone := (deriveSt k (e.cond, e.clone)).2 }
+
+def Env.begin (e : Env) : Env :=
+  { e with inTx := true, cond := (beginSt (e.cond, e.clone)).1, clone := (beginSt (e.cond, e.clone)).2 }
+def Env.nest (e : Env) : Env :=
+  { e with cond := (nestSt (e.cond, e.clone)).1, clone := (nestSt (e.cond, e.clone)).2 }
+
+/-- a SAVEPOINT error is recorded twice on a clone = 0 handle (see `spErr`) -/
+def spErrSpec (e : Env) (n : Nat) : Err := if e.clone = .c0 then [.inj n, .inj n] else [.inj n]
 
 def specWrite (o : Oracle) (w : Write) (view : Store) (n : Nat) : Store × Nat × Res :=
   if o n then (view, n + 1, .err [.inj n]) else
@@ -497,31 +546,31 @@ def specFnOut (out : Out) (tag : Nat) : Store × Nat × Res → Store × Nat × 
 mutual
 def specChild (o : Oracle) (e : Env) : Prog → Store → Nat → Store × Nat × Res
   | .write w0 _, v, n =>
-    let w := effWrite e.cond w0
+    let w := effWrite e.effCond w0
     if e.inTx || e.skip then specWrite o w v n
     else if o n then (v, n + 1, .err [.inj n])                       -- implicit BEGIN fails
     else match specWrite o w v (n + 1) with
       | (s, _, .ok) => if o (n + 2) then (v, n + 3, .err [.inj (n + 2)]) else (s, n + 3, .ok)   -- implicit COMMIT
       | (_, _, r) => (v, n + 3, r)                                    -- implicit ROLLBACK
   | .read _, v, n => if o n then (v, n + 1, .err [.inj n]) else (v, n + 1, .ok)
-  | .sp _ _, v, n => if o n then (v, n + 1, .err [.inj n]) else (v, n + 1, .ok)
+  | .sp _ _, v, n => if o n then (v, n + 1, .err (spErrSpec e n)) else (v, n + 1, .ok)
   | .rb _ _, v, n => (v, n + 1, .err [.noSavepoint])                 -- outside the fragment the reference covers
   | .dv k body _, v, n => specBody o (specDerive k e) body v n       -- a derived handle is the same transaction
   | .blk body out tag _, v, n =>
     if e.inTx then
-      if e.dis then specFnOut out tag (specBody o e body v n)                            -- nothing of its own to undo
-      else if o n then (v, n + 1, .err [.inj n])                      -- SAVEPOINT fails: function not run
-      else match specFnOut out tag (specBody o e body v (n + 1)) with
+      if e.dis then specFnOut out tag (specBody o e.nest body v n)                       -- nothing of its own to undo
+      else if o n then (v, n + 1, .err (spErrSpec e n))               -- SAVEPOINT fails: function not run
+      else match specFnOut out tag (specBody o e.nest body v (n + 1)) with
         | (s, n', .ok) => (s, n', .ok)
         | (_, n', r) => (v, n' + 1, r)                                -- back to the entry store
     else if o n then (v, n + 1, .err [.inj n])                        -- BEGIN fails
-    else match specFnOut out tag (specBody o { e with inTx := true } body v (n + 1)) with
+    else match specFnOut out tag (specBody o e.begin body v (n + 1)) with
       | (s, n', .ok) => if o n' then (v, n' + 1, .err [.inj n']) else (s, n' + 1, .ok)     -- COMMIT
       | (_, n', r) => (v, n' + 1, r)                                  -- ROLLBACK
   | .man body fin _, v, n =>
     if e.inTx then (v, n, .err [.invalidTx])
     else if o n then (v, n + 1, .err [.inj n])
-    else match specBody o { e with inTx := true } body v (n + 1) with
+    else match specBody o e.begin body v (n + 1) with
       | (s, n', .ok) =>
         match fin with
         | .commit => if o n' then (v, n' + 1, .err [.inj n']) else (s, n' + 1, .ok)
